@@ -98,7 +98,7 @@ class UnitResult:
     """Counters of one unit; merged by the parent.  Sets of hashes stay in the
     worker: units partition the case space, so distinct counts add up."""
     __slots__ = ("evals", "nontrivial", "states", "transitions", "validated", "outcomes",
-                 "violations", "samples", "extra", "_seen", "_states")
+                 "violations", "samples", "extra", "_seen", "_states", "export_states")
 
     def __init__(self):
         self.evals = 0
@@ -112,6 +112,7 @@ class UnitResult:
         self.extra = collections.Counter()
         self._seen = set()
         self._states = set()
+        self.export_states = False      # True: state hashes go to the parent, which counts the union over units
 
     # a *state* is a distinct configuration (term/context/input) the implementation was run from
     def state(self, key):
@@ -149,6 +150,11 @@ class UnitResult:
             self.samples.append(s)
 
     def pack(self):
+        if self.export_states:
+            return {"evals": self.evals, "nontrivial": self.nontrivial, "states": 0, "state_hashes": list(self._states),
+                    "transitions": self.transitions, "validated": self.validated,
+                    "outcomes": dict(self.outcomes), "violations": self.violations,
+                    "samples": self.samples, "extra": dict(self.extra)}
         return {"evals": self.evals, "nontrivial": self.nontrivial, "states": self.states,
                 "transitions": self.transitions, "validated": self.validated,
                 "outcomes": dict(self.outcomes), "violations": self.violations,
@@ -216,6 +222,7 @@ def run_check(pid, modname, tier, argv=()):
         k = seed % max(1, nunits)
         order = order[k:] + order[:k]
     total = UnitResult()
+    union_states = set()
     errors = []
     per_sig = collections.OrderedDict()
     done = 0
@@ -236,6 +243,8 @@ def run_check(pid, modname, tier, argv=()):
             total.evals += d["evals"]
             total.nontrivial += d["nontrivial"]
             total.states += d["states"]
+            if "state_hashes" in d:
+                union_states.update(d["state_hashes"])
             total.transitions += d["transitions"]
             total.validated += d["validated"]
             total.outcomes.update(d["outcomes"])
@@ -254,6 +263,7 @@ def run_check(pid, modname, tier, argv=()):
         if pool is not None:
             pool.terminate()
             pool.join()
+    total.states += len(union_states)
     wall = time.time() - t0
 
     # ----- classify violations
